@@ -10,7 +10,10 @@ Tie K: the real find_known_functions on a pool of names; the real pipeline (appl
 Oracles on the implementation's output: (1) `SpecRow` on every row of the live `functions_to_replace`; (2) `SpecEmit`
         on the emitted text (parsed by the Lean side); (3) g++: the emitted expressions are compiled against a tiny
         stand-in for the loop variable, with exactly the include files the translator added, evaluated at sample
-        points and compared with the function of that name (python's math / the C definitions).
+        points and compared with the function of that name (python's math / the C definitions); (4) `PlacementSpec` and
+        `AliveSpec` on the per-event method rendered for the call at every kind of position, on event-level operands
+        (First / Sum / Count) and after a re-translation of the same query object; (5) g++ again: the rendered per-event
+        method itself, compiled against a mock event model and run over mock events, every filled row compared.
 """
 from __future__ import annotations
 
@@ -283,6 +286,13 @@ TYPED_METHODS = {"nI": "int", "xF": "float"}  # declared to the translator throu
 DOUBLE_METHODS = ["pt", "eta", "phi"]  # undeclared methods default to double
 
 # abstract expressions (python side):  ("m", name) | ("i", n) | ("f", x) | ("s", text) | ("call", f, [args]) | ("bin", op, l, r) | ("un", op, e)
+# event-level operands (their evaluation emits statements and moves the translator's cursor; `COLL` is the backend's collection):
+#   ("fm", name)  COLL.First().name()                       -- stays inside the loop and the guard of the First()
+#   ("sf", name)  COLL.Select(lambda k: k.name()).First()   -- the same, the method inside the Select
+#   ("cnt",)      COLL.Count()                              -- a loop opened and closed again, the value is the accumulator (int)
+#   ("sum", name) COLL.Select(lambda k: k.name()).Sum()     -- the same (double)
+LEAF_KINDS = ("m", "i", "f", "s", "fm", "sf", "cnt", "sum")
+EVENT_LEAF_KINDS = ("fm", "sf", "cnt", "sum")
 PY_BIN = {"Add": "+", "Sub": "-", "Mult": "*", "Div": "/", "Mod": "%", "Pow": "**", "MatMult": "@"}
 PY_UN = {"USub": "-", "UAdd": "+", "Not": "not ", "Invert": "~"}
 
@@ -297,6 +307,14 @@ def to_src(e) -> str:
         return repr(float(e[1]))
     if k == "s":
         return json.dumps(e[1])
+    if k == "fm":
+        return f"COLL.First().{e[1]}()"
+    if k == "sf":
+        return f"COLL.Select(lambda k: k.{e[1]}()).First()"
+    if k == "cnt":
+        return "COLL.Count()"
+    if k == "sum":
+        return f"COLL.Select(lambda k: k.{e[1]}()).Sum()"
     if k == "call":
         return f"{e[1]}({', '.join(to_src(a) for a in e[2])})"
     if k == "bin":
@@ -316,12 +334,18 @@ def leaf_cpp(e, sep: str) -> Tuple[str, str]:
         return (str(float(e[1])), "double")
     if k == "s":
         return ('"' + e[1] + '"', "string")
+    if k in ("fm", "sf"):  # the loop variable of the First() (numbers are renamed away, see norm_names)
+        return (f"i_obj{sep}{e[1]}()", TYPED_METHODS.get(e[1], "double"))
+    if k == "cnt":
+        return ("aggResult", "int")
+    if k == "sum":
+        return ("aggResult", "double")
     raise ValueError(e)
 
 
 def to_json(e, sep: str) -> Dict[str, Any]:
     k = e[0]
-    if k in ("m", "i", "f", "s"):
+    if k in LEAF_KINDS:
         t, ty = leaf_cpp(e, sep)
         return {"k": "leaf", "t": t, "ty": ty}
     if k == "call":
@@ -337,7 +361,7 @@ def leaves_of(e, sep: str) -> List[List[str]]:
     out: List[List[str]] = []
 
     def go(x):
-        if x[0] in ("m", "i", "f", "s"):
+        if x[0] in LEAF_KINDS:
             p = list(leaf_cpp(x, sep))
             if p not in out:
                 out.append(p)
@@ -389,6 +413,8 @@ def static_int(e) -> bool:
         return True
     if e[0] == "m":
         return TYPED_METHODS.get(e[1]) == "int"
+    if e[0] == "cnt":
+        return True
     if e[0] == "call":
         return e[1] == "ilogb"  # std::ilogb returns int (and is declared so since 340b270)
     if e[0] == "bin":
@@ -641,7 +667,7 @@ class Skip(Exception):
     pass
 
 
-def py_eval(e, s: Tuple[float, float, float], jitter: float = 0.0):
+def py_eval(e, s: Tuple[float, float, float], jitter: float = 0.0, ev: Any = None):
     """python numerics, every function read by its documented name.  `jitter` perturbs every function
     result relatively: a sample whose value moves under it is ill-conditioned (a discontinuity or a
     cancellation amplifies last-digit differences between libm and python) and is not compared."""
@@ -650,15 +676,24 @@ def py_eval(e, s: Tuple[float, float, float], jitter: float = 0.0):
         return {"pt": s[0], "eta": s[1], "phi": s[2], "nI": N_I, "xF": X_F}[e[1]]
     if k in ("i", "f", "s"):
         return e[1]
+    if k in EVENT_LEAF_KINDS:  # `ev`: the jets (pt, eta, phi) of the event
+        if not ev:
+            raise Skip()
+        col = {"pt": 0, "eta": 1, "phi": 2}
+        if k == "cnt":
+            return len(ev)
+        if e[1] not in col:
+            raise Skip()
+        return ev[0][col[e[1]]] if k in ("fm", "sf") else sum((j[col[e[1]]] for j in ev), 0.0)
     try:
         if k == "call":
-            args = [py_eval(a, s, jitter) for a in e[2]]
+            args = [py_eval(a, s, jitter, ev) for a in e[2]]
             if e[1] not in REF:
                 raise Skip()
             v = float(REF[e[1]](*args))
             return v * (1.0 + jitter) if jitter and math.isfinite(v) else v
         if k == "bin":
-            l, r = py_eval(e[2], s, jitter), py_eval(e[3], s, jitter)
+            l, r = py_eval(e[2], s, jitter, ev), py_eval(e[3], s, jitter, ev)
             if isinstance(l, str) or isinstance(r, str):
                 raise Skip()
             v = {"Add": lambda: l + r, "Sub": lambda: l - r, "Mult": lambda: l * r, "Div": lambda: l / r, "Pow": lambda: l ** r}[e[1]]()
@@ -666,7 +701,7 @@ def py_eval(e, s: Tuple[float, float, float], jitter: float = 0.0):
                 raise Skip()
             return v
         if k == "un":
-            v = py_eval(e[2], s, jitter)
+            v = py_eval(e[2], s, jitter, ev)
             return -v if e[1] == "USub" else +v
     except (ValueError, OverflowError, ZeroDivisionError, KeyError, TypeError):
         raise Skip()
@@ -1067,7 +1102,7 @@ def report(ctx, r, keyprefix: str = "emit") -> Optional[str]:
 
 def _tuplify(e):
     if isinstance(e, list):
-        return tuple(_tuplify(x) if isinstance(x, list) and x and isinstance(x[0], str) and x[0] in ("m", "i", "f", "s", "call", "bin", "un") else
+        return tuple(_tuplify(x) if isinstance(x, list) and x and isinstance(x[0], str) and x[0] in LEAF_KINDS + ("call", "bin", "un") else
                      ([_tuplify(y) for y in x] if isinstance(x, list) else x) for x in e)
     return e
 
@@ -1329,7 +1364,43 @@ PLACEMENTS: Dict[str, str] = {
     "inner-select": "Select(DS, lambda e: COLL.Select(lambda j: @F@))",
     "boolean-operand": "Select(SelectMany(DS, lambda e: COLL), lambda j: @F@ > 1.0 and j.pt() > 2)",
     "method-argument-of-first": "Select(DS, lambda e: COLL.First().mD(@F@))".replace("@F@", "@G@"),
+    # the value of the function is the row (object level): the positions the histories are run on
+    "column": "Select(SelectMany(DS, lambda e: COLL), lambda j: @F@)",
+    "column-in-arithmetic": "Select(SelectMany(DS, lambda e: COLL), lambda j: @F@ * 2 + 1)",
+    # event level: the operands are event-level values (EVENT_LEAF_KINDS) whose evaluation emits statements and may leave
+    # the translator inside new blocks; the call has to be put where those operands are alive
+    "event-column": "Select(DS, lambda e: @F@)",
+    "event-column-in-arithmetic": "Select(DS, lambda e: @F@ * 2 + 1)",
+    "event-tuple-first": "Select(DS, lambda e: (@F@, COLL.Count()))",
+    "event-tuple-last": "Select(DS, lambda e: (COLL.Count(), @F@))",
+    "event-dict-element": "Select(DS, lambda e: {'n': COLL.Count(), 'v': @F@})",
+    "event-other-function-argument": "Select(DS, lambda e: atan(@F@))",
+    "event-filter": "Select(Where(DS, lambda e: @F@ > 0.5), lambda e: COLL.Count())",
 }
+EVENT_PLACEMENTS = [p for p in PLACEMENTS if p.startswith("event-")]
+# placements whose rows the compiled-job oracle knows how to predict: placement -> (row per, columns, filter)
+#   row per: "jet" (one row per element of COLL) | "event";  columns: functions of the call expression F giving the
+#   column expressions in booking order ("vec": one vector-valued column of F over the jets);  filter: F -> condition
+_CNT = ("cnt",)
+JOB_PLACEMENTS: Dict[str, Any] = {
+    "column": ("jet", lambda F: [F], None),
+    "column-in-arithmetic": ("jet", lambda F: [("bin", "Add", ("bin", "Mult", F, ("i", 2)), ("i", 1))], None),
+    "inner-select": ("event", "vec", None),
+    "event-column": ("event", lambda F: [F], None),
+    "event-column-in-arithmetic": ("event", lambda F: [("bin", "Add", ("bin", "Mult", F, ("i", 2)), ("i", 1))], None),
+    "event-tuple-first": ("event", lambda F: [F, _CNT], None),
+    "event-tuple-last": ("event", lambda F: [_CNT, F], None),
+    "event-dict-element": ("event", lambda F: [_CNT, F], None),
+    "event-other-function-argument": ("event", lambda F: [("call", "atan", [F])], None),
+    "event-filter": ("event", lambda F: [_CNT], lambda F: F),
+}
+# histories: what happened to the query object before the translation that is judged
+#   fresh               nothing: a new AST, a new executor
+#   again               the transformed AST was already written once by the same executor
+#   again-new-executor  … and is written again by another executor of the same backend
+#   reapplied           apply_ast_transformations + write_cpp_files ran on the same AST object before, all of it is run again
+#   same-text-before    another AST object parsed from the same query text was translated by the same executor just before
+HISTORIES = ["fresh", "again", "again-new-executor", "reapplied", "same-text-before"]
 
 
 def placement_query(backend: str, placement: str, e) -> str:
@@ -1344,47 +1415,358 @@ def placement_query(backend: str, placement: str, e) -> str:
         ds = f"MetaData({ds}, {m!r})"
     src = to_src(e)
     # "@G@": the function applied to a constant (no loop variable in scope at that position)
-    return PLACEMENTS[placement].replace("DS", ds).replace("COLL", b["coll"]).replace(PLACE_TOKEN, src).replace("@G@", src)
+    return PLACEMENTS[placement].replace(PLACE_TOKEN, src).replace("@G@", src).replace("DS", ds).replace("COLL", b["coll"])
+
+
+def placement_text(placement: str, src: str) -> str:
+    return PLACEMENTS[placement].replace(PLACE_TOKEN, src).replace("@G@", src)
+
+
+def norm_names(text: str) -> str:
+    """the numbers the translator glues to its loop variables and accumulators are renamed away (the operand texts
+    the Lean side is given are written without them)"""
+    return re.sub(r"\baggResult\d+", "aggResult", re.sub(r"\bi_obj\d+", "i_obj", text))
+
+
+_STR_RE = re.compile(r'"(?:[^"\\]|\\.)*"')
+# a name the translator generates (unique_name: prefix + counter) used as a variable: not a member access, not qualified
+_GEN_USE_RE = re.compile(r"(?<![\w.])(?<!->)(?<!::)([A-Za-z_]\w*?\d+)\b(?!\s*::)")
+_FOR_RE = re.compile(r"^for\s*\(\s*auto\s*&&\s*(\w+)\s*:\s*(.*)\)$")
+_DECL_RE = re.compile(r"^(?:const\s+)?[A-Za-z_][\w:<>, ]*?[\s\*&]+(\w+)\s*(?:;|=(?!=)|\()")
+_NOT_DECL = re.compile(r"^(?:return|throw|if|else|for|while|delete|using|case|goto|do|virtual|static|explicit|public|private|protected|typedef)\b")
+
+
+def method_body(backend: str, main: str) -> Optional[str]:
+    """the text `{ … }` of the per-event method of the rendered main file (string literals may hold braces)"""
+    m = re.search(r"StatusCode\s+query\s*::\s*execute\s*\(\s*\)", main) if backend == "atlas" else re.search(r"void\s+Analyzer::analyze\s*\([^)]*\)", main)
+    if not m:
+        return None
+    i = main.find("{", m.end())
+    if i < 0:
+        return None
+    depth, k, n = 0, i, len(main)
+    while k < n:
+        ch = main[k]
+        if ch == '"':
+            mm = _STR_RE.match(main, k)
+            k = mm.end() if mm else k + 1
+            continue
+        if ch == "/" and main.startswith("//", k):
+            k = main.find("\n", k)
+            if k < 0:
+                return None
+            continue
+        if ch == "{":
+            depth += 1
+        elif ch == "}":
+            depth -= 1
+            if depth == 0:
+                return main[i:k + 1]
+        k += 1
+    return None
+
+
+def class_members(backend: str, files: Dict[str, str]) -> List[Tuple[str, str]]:
+    """(type, name) of the data members of the generated class (query.h on ATLAS, the class at the top of Analyzer.cc)"""
+    text = files.get("query.h", "") if backend == "atlas" else files.get("Analyzer.cc", "")
+    m = re.search(r"\bclass\s+\w+[^{;]*\{(.*?)^\};", text, re.S | re.M)
+    if not m:
+        return []
+    out = []
+    for l in m.group(1).splitlines():
+        s = l.strip()
+        mm = re.match(r"^((?:const\s+)?[A-Za-z_][\w:<>, ]*?[\s\*&]+)(\w+)\s*;$", s)
+        if mm and "(" not in s and not _NOT_DECL.match(s):
+            out.append((mm.group(1).strip(), mm.group(2)))
+    return out
+
+
+def method_lines(body: str) -> List[Dict[str, Any]]:
+    """the per-event method cut into the lines the Lean side walks (op `alive`): kind, normalised text (only of the
+    lines that mention a std:: function: only those can hold the call), generated variables declared / mentioned"""
+    out: List[Dict[str, Any]] = []
+    for raw in body.splitlines():
+        s = raw.strip()
+        if not s or s.startswith(("//", "#")):
+            continue
+        if s == "{":
+            out.append({"k": "open", "t": "", "d": [], "u": []})
+            continue
+        if s == "}":
+            out.append({"k": "close", "t": "", "d": [], "u": []})
+            continue
+        bare = _STR_RE.sub('""', s)
+        text = nospace(norm_names(s)) if "std::" in bare else ""
+        m = _FOR_RE.match(bare)
+        if m:
+            out.append({"k": "for", "t": text, "d": [m.group(1)], "u": sorted(set(_GEN_USE_RE.findall(m.group(2))))})
+            continue
+        decl: List[str] = []
+        if not _NOT_DECL.match(bare):
+            m = _DECL_RE.match(bare)
+            if m:
+                decl = [m.group(1)]
+        out.append({"k": "stmt", "t": text, "d": decl, "u": sorted(set(_GEN_USE_RE.findall(bare)) - set(decl))})
+    return out
 
 
 def _place_job(job) -> Dict[str, Any]:
     import logging
 
-    backend, placement, e = job
+    backend, placement, e = job[:3]
+    history = job[3] if len(job) > 3 else "fresh"
     logging.disable(logging.CRITICAL)
     b = BACKENDS[backend]
     d = Path(tempfile.mkdtemp(prefix="c12_"))
+
+    def write(exe, a2):
+        shutil.rmtree(d, ignore_errors=True)
+        d.mkdir()
+        info = exe.write_cpp_files(a2, d)
+        return {f: (d / f).read_text() for f in info.all_filenames if (d / f).is_file() and f.endswith(CPP_SUFFIXES)}
+
     try:
         a = ast.parse(placement_query(backend, placement, e), mode="eval").body
         exe = _executor(backend)
-        info = exe.write_cpp_files(exe.apply_ast_transformations(a), d)
-        main = (d / b["main"]).read_text()
+        if history == "reapplied":
+            write(exe, exe.apply_ast_transformations(a))
+            files = write(exe, exe.apply_ast_transformations(a))
+        elif history == "same-text-before":
+            write(exe, exe.apply_ast_transformations(ast.parse(placement_query(backend, placement, e), mode="eval").body))
+            files = write(exe, exe.apply_ast_transformations(a))
+        else:
+            a2 = exe.apply_ast_transformations(a)
+            files = write(exe, a2)
+            if history == "again":
+                files = write(exe, a2)
+            elif history == "again-new-executor":
+                files = write(_executor(backend), a2)
+        main = files[b["main"]]
     except Exception as ex:
         return {"err": type(ex).__name__, "msg": str(ex)[:200]}
     finally:
         shutil.rmtree(d, ignore_errors=True)
         logging.disable(logging.NOTSET)
-    code = [nospace(re.sub(r"\bi_obj\d+", "i_obj", l)) for l in main.splitlines() if "std::" in l and not l.lstrip().startswith(("#", "//"))]
-    return {"code": "\n".join(code), "incs": added_includes(backend, INCLUDE_RE.findall(main))}
+    code = [nospace(norm_names(l)) for l in main.splitlines() if "std::" in l and not l.lstrip().startswith(("#", "//"))]
+    body = method_body(backend, main)
+    return {"code": "\n".join(code), "incs": added_includes(backend, INCLUDE_RE.findall(main)), "body": body,
+            "members": class_members(backend, files)}
 
 
-def placement_cases(ctx, g) -> List[Tuple[str, str, Any]]:
-    names = [n for n in g["readme"] if n in REF and n != "remquo"]
-    few = ["abs", "cosh", "round", "ilogb", "pow", "fma", "ldexp", "nan"]
-    out = []
-    for n in names:
-        for pl in PLACEMENTS:
-            for b in BACKENDS:
-                if ctx.tier == "quick" and b != "atlas" and n not in few:
-                    continue
-                e = call_of(n)
-                if pl == "method-argument-of-first":  # no loop variable there: constant arguments
-                    e = ("call", n, [a if a[0] != "m" else ("f", 0.5) for a in e[2]])
-                out.append((b, pl, e))
+# --------------------------------------------------------------------------------------------
+# the compiled job: the per-event method the translator rendered, run over mock events
+# --------------------------------------------------------------------------------------------
+
+JOB_MOCK = r"""#include <cstdio>
+#include <vector>
+#include <string>
+#include <stdexcept>
+#include <cmath>
+// (which header the translator asks for is judged by the Spec on the include lists, not here)
+struct Jet { double a, b, c; int n; float x;
+  double pt() const { return a; } double eta() const { return b; } double phi() const { return c; }
+  int nI() const { return n; } float xF() const { return x; } };
+typedef std::vector<const Jet*> PtrColl;
+typedef std::vector<Jet> ValColl;
+namespace xAOD { typedef ::Jet Jet; typedef ::PtrColl JetContainer; }
+namespace reco { typedef ::Jet Muon; typedef ::ValColl MuonCollection; }
+namespace pat { typedef ::Jet Muon; typedef ::ValColl MuonCollection; }
+static PtrColl g_ptrs; static ValColl g_vals; static int g_ev = 0;
+struct Store { bool retrieve(const PtrColl*& r, const char*) { r = &g_ptrs; return true; } };
+static Store g_store; static Store* evtStore() { return &g_store; }
+#define ANA_CHECK(x) x
+struct StatusCode { enum { SUCCESS = 0 }; };
+static void (*g_fill)() = 0;
+struct TTree { void Fill() { g_fill(); } };
+static TTree g_tree; static TTree* tree(const char*) { return &g_tree; } static TTree* myTree = &g_tree;
+namespace edm {
+  template <class T> struct Handle { const T* p = 0; const T& operator*() const { return *p; } const T* operator->() const { return p; } };
+  template <class T> struct EDGetTokenT {};
+  struct Event { bool getByLabel(const char*, Handle<ValColl>& h) const { h.p = &g_vals; return true; }
+                 bool getByToken(const EDGetTokenT<ValColl>&, Handle<ValColl>& h) const { h.p = &g_vals; return true; } };
+  struct EventSetup {};
+}
+static void pv(double v) { printf(" %%a", v); }
+template <class T> static void pv(const std::vector<T>& v) { printf(" ["); for (const auto& x : v) pv((double) x); printf(" ]"); }
+static void set_event(const double* j, int n) { g_vals.clear(); g_ptrs.clear();
+  for (int k = 0; k < n; k++) g_vals.push_back(Jet{j[3 * k], j[3 * k + 1], j[3 * k + 2], %(ni)d, %(xf)sf});
+  for (auto& x : g_vals) g_ptrs.push_back(&x); }
+%(cases)s
+int main() {
+  setvbuf(stdout, 0, _IOLBF, 0);
+  edm::Event ev; edm::EventSetup es;
+%(calls)s
+  return 0;
+}
+"""
+
+
+def job_eval(items: List[Dict[str, Any]], timeout: int = 300) -> Dict[int, Any]:
+    """`_job_eval` on batches of 250 methods, four compilers at a time"""
+    todo = [it for it in items if it.get("body")]
+    chunks = [todo[i:i + 250] for i in range(0, len(todo), 250)]
+    out: Dict[int, Any] = {}
+    if len(chunks) <= 1:
+        return _job_eval(todo, timeout)
+    from concurrent.futures import ThreadPoolExecutor
+
+    with ThreadPoolExecutor(max_workers=4) as ex:
+        for res in ex.map(lambda c: _job_eval(c, timeout), chunks):
+            out.update(res)
     return out
 
 
-def judge_placements(ctx, cases: List[Tuple[str, str, Any]]) -> List[Dict[str, Any]]:
+def _job_eval(items: List[Dict[str, Any]], timeout: int = 300) -> Dict[int, Any]:
+    """items: {"id", "backend", "body", "members": [(type, name)], "events": [[(pt, eta, phi)…]…]} ->
+    id -> {"events": {k: [[column values…]…] | "threw"}} | {"compile": msg}.
+    The per-event method is compiled as the translator wrote it (its data members become variables of a namespace of
+    its own) against a stand-in for the event store, the collections and the tree; every Fill() prints the columns."""
+    out: Dict[int, Any] = {}
+    todo = [it for it in items if it.get("body")]
+    d = Path(tempfile.mkdtemp(prefix="c12_job_"))
+    try:
+        for _round in range(12):
+            if not todo:
+                break
+            cases, calls = [], []
+            for it in todo:
+                i = it["id"]
+                cols = [(ty, nm) for ty, nm in it["members"] if nm.startswith("_")]
+                other = [(ty, nm) for ty, nm in it["members"] if not nm.startswith("_") and nm != "myTree"]
+                ret = "int" if it["backend"] == "atlas" else "void"
+                mem = "\n".join(f"  {ty} {nm}{'' if '<' in ty else ' = 0'};" for ty, nm in cols) + "\n" + "\n".join(f"  {ty} {nm};" for ty, nm in other)
+                fill = " ".join(f"pv({nm});" for _, nm in cols)
+                cases.append(f"namespace c12_{i} {{\n{mem}\n  static void fill() {{ printf(\"ROW {i} %d\", g_ev); {fill} printf(\"\\n\"); }}\n"
+                             f"#line 1 \"c12job_{i}\"\n  static {ret} event(const edm::Event &iEvent, const edm::EventSetup &iSetup)\n{it['body']}\n}}\n#line 1 \"c12mock\"")
+                for k, jets in enumerate(it["events"]):
+                    flat = ", ".join(repr(float(v)) for j in jets for v in j)
+                    calls.append(f"  {{ static const double js[] = {{{flat}}}; set_event(js, {len(jets)}); g_ev = {k}; g_fill = &c12_{i}::fill; "
+                                 f"try {{ c12_{i}::event(ev, es); }} catch (const std::exception&) {{ printf(\"THROW {i} {k}\\n\"); }} }}")
+            (d / "t.cc").write_text(JOB_MOCK % {"ni": N_I, "xf": repr(X_F), "cases": "\n".join(cases), "calls": "\n".join(calls)})
+            p = subprocess.run(["g++", "-std=c++17", "-O0", "-w", "-o", str(d / "t"), str(d / "t.cc")], capture_output=True, text=True, timeout=timeout)
+            if p.returncode != 0:
+                bad = set()
+                for m in re.finditer(r"c12job_(\d+):\d+:\d+: error: (.*)", p.stderr):
+                    cid = int(m.group(1))
+                    if cid not in bad:
+                        bad.add(cid)
+                        out[cid] = {"compile": m.group(2)[:200]}
+                if not bad:
+                    raise vlib.InternalError("g++ failed outside the generated per-event methods: " + p.stderr[:800])
+                todo = [it for it in todo if it["id"] not in bad]
+                continue
+            r = subprocess.run([str(d / "t")], capture_output=True, text=True, timeout=timeout)
+            if r.returncode != 0:
+                raise vlib.InternalError(f"the compiled mock job died (status {r.returncode}): " + r.stderr[:300])
+            res: Dict[int, Dict[int, Any]] = {it["id"]: {k: [] for k in range(len(it["events"]))} for it in todo}
+            for l in r.stdout.splitlines():
+                parts = l.split()
+                if len(parts) >= 3 and parts[0] == "THROW":
+                    res[int(parts[1])][int(parts[2])] = "threw"
+                elif len(parts) >= 3 and parts[0] == "ROW":
+                    row: List[Any] = []
+                    cur: Optional[List[float]] = None
+                    for tok in parts[3:]:
+                        if tok == "[":
+                            cur = []
+                        elif tok == "]":
+                            row.append(cur)
+                            cur = None
+                        else:
+                            c = tok.lower()
+                            v = float("nan") if "nan" in c else (float("inf") if c == "inf" else (float("-inf") if c == "-inf" else float.fromhex(c)))
+                            (cur if cur is not None else row).append(v)
+                    slot = res[int(parts[1])][int(parts[2])]
+                    if isinstance(slot, list):
+                        slot.append(row)
+            for it in todo:
+                out[it["id"]] = {"events": res[it["id"]]}
+            todo = []
+    finally:
+        shutil.rmtree(d, ignore_errors=True)
+    return out
+
+
+SECOND_JET = (1.25, 0.5, -0.75)
+
+
+def robust_value(ctx, x, s, ev) -> Optional[float]:
+    """python's value of `x` for the jet `s` of the event `ev`; None where it is not defined or ill-conditioned"""
+    try:
+        v = float(py_eval(x, s, 0.0, ev))
+        if len(called(x)) > 1 or len(ops_of(x)) > 0:
+            for jit in (1e-11, -1e-11):
+                if not close(v, float(py_eval(x, s, jit, ev)), 1e-10):
+                    ctx.count("g++:ill-conditioned-sample-skipped")
+                    return None
+        return v if abs(v) < 1e15 or math.isinf(v) or math.isnan(v) else None
+    except (Skip, OverflowError):
+        return None
+
+
+def job_expectation(ctx, placement: str, e) -> Optional[Dict[str, Any]]:
+    """mock events (two jets each: a sample point of the function's domain and a fixed second jet) and, per event, the rows
+    python numerics give (None: not predicted — a value is undefined or ill-conditioned there)"""
+    per, cols, filt = JOB_PLACEMENTS[placement]
+    events = [[tuple(s), SECOND_JET] for s in samples_for(e, "quick")]
+    exp: List[Any] = []
+    for jets in events:
+        rows: Optional[List[List[Any]]] = []
+        for s in (jets if per == "jet" else [jets[0]]):
+            if cols == "vec":
+                vals = [robust_value(ctx, e, j, jets) for j in jets]
+                row = [None if any(v is None for v in vals) else vals]
+            else:
+                row = [robust_value(ctx, x, s, jets) for x in cols(e)]
+            if filt is not None:
+                c = robust_value(ctx, filt(e), s, jets)
+                if c is None or abs(c - 0.5) < 1e-6:
+                    rows = None
+                    break
+                if not c > 0.5:
+                    continue
+            rows.append(row)
+        exp.append(rows)
+    if all(r is None or all(v is None for row in r for v in row) for r in exp) and filt is None:
+        return None
+    return {"events": events, "expected": exp}
+
+
+def job_why(r) -> Optional[str]:
+    j = r.get("job")
+    if not j or "got" not in j:
+        return None
+    g = j["got"]
+    if g is None:
+        return None
+    if "compile" in g:
+        return "the per-event method the translator rendered does not compile against the mock event model: " + g["compile"]
+    tol = 1e-6 if size(r["expr"]) > 8 else 1e-9
+    for k, want in enumerate(j["expected"]):
+        have = g["events"].get(k)
+        if want is None:
+            continue
+        at = f"on the event with jets (pt, eta, phi) = {j['events'][k]}"
+        if have == "threw":
+            return f"{at} the generated method throws"
+        if len(have) != len(want):
+            return f"{at} the generated method fills {len(have)} row(s), the query has {len(want)}"
+        for hr, wr in zip(have, want):
+            if len(hr) != len(wr):
+                return f"{at} a row has {len(hr)} columns, the query has {len(wr)}"
+            for hv, wv in zip(hr, wr):
+                if wv is None:
+                    continue
+                if isinstance(wv, list):
+                    if not isinstance(hv, list) or len(hv) != len(wv) or not all(close(a, b, tol) for a, b in zip(wv, hv)):
+                        return f"{at} the generated job gives {hv!r}, the function of that name gives {wv!r}"
+                elif isinstance(hv, list) or not close(wv, hv, tol):
+                    return f"{at} the generated job gives {hv!r}, the function of that name gives {wv!r}"
+    return None
+
+
+def judge_placements(ctx, cases: List[Tuple[Any, ...]]) -> List[Dict[str, Any]]:
+    """cases: (backend, placement, expr[, history])"""
     for b in BACKENDS:
         added_includes(b, [])
     if len(cases) >= 64:
@@ -1399,47 +1781,180 @@ def judge_placements(ctx, cases: List[Tuple[str, str, Any]]) -> List[Dict[str, A
     else:
         obs = [_place_job(j) for j in cases]
     reqs = []
-    for (b, pl, e), o in zip(cases, obs):
+    for c, o in zip(cases, obs):
+        b, pl, e = c[:3]
         sep = BACKENDS[b]["sep"]
+        ok = "err" not in o
         reqs.append({"op": "tr", "expr": to_json(e, sep)})
-        reqs.append({"op": "placement", "expr": to_json(e, sep), "leaves": leaves_of(e, sep), "obs": None if "err" in o else {"code": o["code"], "incs": o["incs"]}})
+        reqs.append({"op": "placement", "expr": to_json(e, sep), "leaves": leaves_of(e, sep), "obs": {"code": o["code"], "incs": o["incs"]} if ok else None})
+        reqs.append({"op": "alive", "expr": to_json(e, sep), "leaves": leaves_of(e, sep), "members": [nm for _, nm in o["members"]] if ok else [],
+                     "lines": method_lines(o["body"]) if ok and o.get("body") else []})
     ans = ctx.driver(DRIVER, reqs)
-    return [{"backend": b, "placement": pl, "expr": e, "src": to_src(e), "obs": o, "model": ans[2 * i], "spec": ans[2 * i + 1]} for i, ((b, pl, e), o) in enumerate(zip(cases, obs))]
+    recs = []
+    items = []
+    for i, (c, o) in enumerate(zip(cases, obs)):
+        b, pl, e = c[:3]
+        r = {"backend": b, "placement": pl, "expr": e, "history": c[3] if len(c) > 3 else "fresh", "src": to_src(e), "obs": o,
+             "model": ans[3 * i], "spec": ans[3 * i + 1], "alive": ans[3 * i + 2], "job": None}
+        if "err" not in o and not o.get("body"):
+            r["alive"] = {"bad": "the per-event method was not found in the rendered main file"}
+        if pl in JOB_PLACEMENTS and "err" not in o and o.get("body") and "bad" not in r["model"] and r["model"].get("documented"):
+            je = job_expectation(ctx, pl, e)
+            if je:
+                r["job"] = je
+                items.append({"id": i, "backend": b, "body": o["body"], "members": o["members"], "events": je["events"]})
+        recs.append(r)
+    if items:
+        got = job_eval(items)
+        ctx.count("g++:per-event-methods-compiled", len(items))
+        for it in items:
+            recs[it["id"]]["job"]["got"] = got.get(it["id"])
+    return recs
 
 
 def placement_why(r) -> Optional[str]:
     if "bad" in r["spec"]:
         return None
+    if "err" in r["obs"]:
+        return None if r["spec"].get("holds", False) else r["spec"].get("why") + f" ({r['obs']['err']}: {r['obs'].get('msg')})"
+    why = []
     if not r["spec"].get("holds", False):
-        return r["spec"].get("why") + (f" ({r['obs']['err']}: {r['obs'].get('msg')})" if "err" in r["obs"] else "")
-    return None
+        why.append(r["spec"].get("why"))
+    al = r.get("alive") or {}
+    if "bad" not in al and not al.get("holds", True) and not (why and al.get("why", "").startswith("no line")):
+        why.append(al.get("why"))
+    jw = job_why(r)
+    if jw:
+        why.append(jw)
+    return "; ".join(why) if why else None
+
+
+def history_text(h: str) -> str:
+    return {"fresh": "", "again": " (second write_cpp_files of the same transformed AST by the same executor)",
+            "again-new-executor": " (second write_cpp_files of the same transformed AST, by a new executor)",
+            "reapplied": " (apply_ast_transformations + write_cpp_files run a second time on the same AST object)",
+            "same-text-before": " (after another AST object with the same query text was translated by the same executor)"}[h]
+
+
+def placement_cases(ctx, g) -> List[Tuple[Any, ...]]:
+    names = [n for n in g["readme"] if n in REF and n != "remquo"]
+    few = ["abs", "cosh", "round", "ilogb", "pow", "fma", "ldexp", "nan"]
+    old = [pl for pl in PLACEMENTS if pl not in EVENT_PLACEMENTS]
+    out: List[Tuple[Any, ...]] = []
+    for n in names:
+        for pl in old:
+            for b in BACKENDS:
+                if ctx.tier == "quick" and b != "atlas" and n not in few:
+                    continue
+                e = call_of(n)
+                if pl == "method-argument-of-first":  # no loop variable there: constant arguments
+                    e = ("call", n, [a if a[0] != "m" else ("f", 0.5) for a in e[2]])
+                out.append((b, pl, e, "fresh"))
+    # event level: every function on values that come straight out of a First(), as the whole column …
+    for n in names:
+        for b in BACKENDS:
+            if ctx.tier == "quick" and b != "atlas" and n not in few:
+                continue
+            for pl in (EVENT_PLACEMENTS if ctx.tier == "thorough" else ["event-column"]):
+                out.append((b, pl, event_call_of(n, None), "fresh"))
+    # … and with a random mix of operand kinds at a random event-level position
+    backs = list(BACKENDS)
+    for i in range(90 if ctx.tier == "quick" else 1500):
+        out.append((backs[i % 3], ctx.rng.choice(EVENT_PLACEMENTS), event_call_of(ctx.rng.choice(names), ctx.rng), "fresh"))
+    # histories: the same query object translated once more
+    hist = [h for h in HISTORIES if h != "fresh"]
+    jobpl = list(JOB_PLACEMENTS)
+    k = 0
+    for n in names:
+        for b in BACKENDS:
+            if ctx.tier == "quick" and b != "atlas" and n not in few:
+                continue
+            for h in (hist if ctx.tier == "thorough" else [hist[k % len(hist)]]):
+                out.append((b, "column", call_of(n), h))
+            k += 1
+    for i in range(60 if ctx.tier == "quick" else 1000):
+        pl = ctx.rng.choice(jobpl + ["where-predicate", "conditional-arms", "method-argument"])
+        n = ctx.rng.choice(names)
+        e = event_call_of(n, ctx.rng) if pl in EVENT_PLACEMENTS else call_of(n)
+        out.append((backs[i % 3], pl, e, ctx.rng.choice(hist)))
+    return [c for c in out if not in_defect_exclusion(c[2])]
+
+
+def event_call_of(f: str, rng):
+    """`f` on event-level operands: rng None -> every double parameter a value out of a First() (pt, eta, phi in turn);
+    otherwise a random mix of First() / Select().First() / Sum() / Count() / constants with at least one that emits code"""
+    meths = ["pt", "eta", "phi"]
+    for _ in range(20):
+        args: List[Any] = []
+        di = 0
+        for kch in PARAMS.get(f, "d"):
+            if kch == "d":
+                if rng is None:
+                    args.append(("fm", meths[di % 3]))
+                else:
+                    c = rng.random()
+                    args.append(("fm", meths[di % 3]) if c < 0.4 else ("sf", meths[di % 3]) if c < 0.6 else ("sum", "pt") if c < 0.75 else ("cnt",) if c < 0.88
+                                else ("f", rng.choice([0.5, 1.5, 2.0, 0.25])))
+                di += 1
+            elif kch == "i":
+                args.append(("i", 3) if rng is None or rng.random() < 0.5 else ("cnt",))
+            elif kch == "s":
+                args.append(("s", ""))
+            elif kch == "p":
+                args.append(("i", 0))
+        kinds = {a[0] for a in args}
+        if "d" not in PARAMS.get(f, "d") or (kinds & set(EVENT_LEAF_KINDS) and not {"cnt", "sum"} <= kinds):
+            break  # (Count and Sum both read `aggResult<n>`: one operand text with two types is kept out)
+    return ("call", f, args)
 
 
 def check_placements(ctx, g) -> None:
-    pre = [(c["backend"], c["placement"], _tuplify(c["expr"])) for c in vlib.corpus_cases(ID) if c.get("placement") in PLACEMENTS]
+    pre = [(c["backend"], c["placement"], _tuplify(c["expr"]), c.get("history", "fresh")) for c in vlib.corpus_cases(ID) if c.get("placement") in PLACEMENTS]
     recs = judge_placements(ctx, pre + placement_cases(ctx, g))
     for r in recs:
         ctx.count("placement:" + r["placement"])
+        ctx.count("history:" + r["history"])
+        if r["job"] and r["job"].get("got") and "events" in r["job"]["got"]:
+            ctx.count("g++:job-cases-evaluated")
+            ctx.count("g++:job-events", len(r["job"]["events"]))
+        if "bad" not in (r.get("alive") or {"bad": 1}):
+            ctx.count("alive:judged")
+        for a in (r["expr"][2] if r["expr"][0] == "call" else []):
+            if a[0] in EVENT_LEAF_KINDS:
+                ctx.count("event-operand:" + a[0])
         smp = None
         if r["placement"] == "method-argument" and ctx.dist.get("sampled:placement", 0) < 1 and "err" not in r["obs"]:
             ctx.count("sampled:placement")
-            smp = {"backend": r["backend"], "placement": r["placement"], "query": PLACEMENTS[r["placement"]].replace(PLACE_TOKEN, r["src"]),
+            smp = {"backend": r["backend"], "placement": r["placement"], "query": placement_text(r["placement"], r["src"]),
                    "emitted_lines_with_std": r["obs"]["code"].split("\n")[:3], "placement_spec_on_implementation": r["spec"]}
-        ctx.case({"place": [r["backend"], r["placement"], r["src"]]}, True, smp)
+        elif r["placement"] in EVENT_PLACEMENTS and ctx.dist.get("sampled:event-placement", 0) < 1 and r["job"] and isinstance(r["job"].get("got"), dict) and "events" in r["job"]["got"]:
+            ctx.count("sampled:event-placement")
+            smp = {"backend": r["backend"], "placement": r["placement"], "query": placement_text(r["placement"], r["src"]),
+                   "emitted_lines_with_std": r["obs"]["code"].split("\n")[:3], "placement_spec_on_implementation": r["spec"], "alive_spec_on_implementation": r["alive"],
+                   "mock_event_jets_pt_eta_phi": r["job"]["events"][0], "compiled_job_rows": r["job"]["got"]["events"].get(0), "function_of_that_name_rows": r["job"]["expected"][0]}
+        elif r["history"] != "fresh" and ctx.dist.get("sampled:history", 0) < 1 and "err" not in r["obs"]:
+            ctx.count("sampled:history")
+            smp = {"backend": r["backend"], "placement": r["placement"], "history": r["history"], "query": placement_text(r["placement"], r["src"]),
+                   "emitted_lines_with_std_of_the_last_translation": r["obs"]["code"].split("\n")[:3], "includes_added_by_the_last_translation": r["obs"]["incs"],
+                   "placement_spec_on_implementation": r["spec"], "alive_spec_on_implementation": r["alive"]}
+        ctx.case({"place": [r["backend"], r["placement"], r["src"], r["history"]]}, True, smp)
         why = placement_why(r)
         if why:
-            ctx.violation(key=f"place:{r['backend']}:{r['placement']}:{r['src']}",
-                          what=f"{r['src']} as {r['placement']} on {r['backend']}: {why}",
-                          case={"backend": r["backend"], "placement": r["placement"], "expr": r["expr"], "src": r["src"],
-                                "query": PLACEMENTS[r["placement"]].replace(PLACE_TOKEN, r["src"]).replace("@G@", r["src"])},
-                          observed=r["obs"], how="python: ast.parse(<query with DS = the dataset wrapped in the MetaData of placement_query, COLL = the backend's collection>, mode='eval').body "
-                          "through <backend>_executor().apply_ast_transformations + write_cpp_files; or ./check C12 --replay <this file>")
+            hk = "" if r["history"] == "fresh" else ":" + r["history"]
+            obs = {k: v for k, v in r["obs"].items() if k != "members"}
+            ctx.violation(key=f"place:{r['backend']}:{r['placement']}{hk}:{r['src']}",
+                          what=f"{r['src']} as {r['placement']} on {r['backend']}{history_text(r['history'])}: {why}",
+                          case={"backend": r["backend"], "placement": r["placement"], "expr": r["expr"], "src": r["src"], "history": r["history"],
+                                "query": placement_text(r["placement"], r["src"])},
+                          observed={"translator": obs, "job": r.get("job")},
+                          how="python: ast.parse(<query with DS = the dataset wrapped in the MetaData of placement_query, COLL = the backend's collection>, mode='eval').body "
+                          "through <backend>_executor().apply_ast_transformations + write_cpp_files (history: see HISTORIES in tools/props/c12.py); or ./check C12 --replay <this file>")
         # the tie: the text the model gives the call stands in the emitted code
         if "ok" in r["model"] and "err" not in r["obs"] and nospace(r["model"]["ok"]["text"]) not in r["obs"]["code"]:
-            ctx.disagreement("placement: the model's text of the call occurs in the emitted code", {"backend": r["backend"], "placement": r["placement"], "src": r["src"]},
+            ctx.disagreement("placement: the model's text of the call occurs in the emitted code", {"backend": r["backend"], "placement": r["placement"], "history": r["history"], "src": r["src"]},
                              nospace(r["model"]["ok"]["text"]), r["obs"]["code"][:300])
         if ("ok" in r["model"]) != ("err" not in r["obs"]):
-            ctx.disagreement("placement: accepted by the model vs by the translator", {"backend": r["backend"], "placement": r["placement"], "src": r["src"]},
+            ctx.disagreement("placement: accepted by the model vs by the translator", {"backend": r["backend"], "placement": r["placement"], "history": r["history"], "src": r["src"]},
                              canon_model(r["model"]), {"refused": r["obs"].get("err")} if "err" in r["obs"] else "accepted")
 
 
@@ -1516,7 +2031,8 @@ def run(ctx):
             ctx.disagreement("parseCpp (render term) = term", {"src": r["src"]}, r["model"], None)
     ctx.extra_cov["exhaustive"] = False
     ctx.extra_cov["exhaustive_part"] = ("every function of the README list x 11 arithmetic contexts on ATLAS and 3 (quick) / 11 (thorough) on the CMS backends (translation, Spec, compiled value at the sample points of its domain); "
-                                        "every row of the live table (row Spec); every python builtin, module global and documented name through the resolver")
+                                        "every row of the live table (row Spec); every python builtin, module global and documented name through the resolver; "
+                                        "every function as whole event-level column on First()-derived operands and as row value under one re-translation history")
 
 
 def report_why(r) -> Optional[str]:
@@ -1581,11 +2097,17 @@ def search(ctx, broken):
 def replay(ctx, rep) -> int:
     case = rep.get("case") or {}
     if "expr" in case and "placement" in case:
-        r = judge_placements(ctx, [(case["backend"], case["placement"], _tuplify(case["expr"]))])[0]
-        print("query:", PLACEMENTS[case["placement"]].replace(PLACE_TOKEN, r["src"]).replace("@G@", r["src"]), " backend:", r["backend"])
-        print("translator:", r["obs"])
+        r = judge_placements(ctx, [(case["backend"], case["placement"], _tuplify(case["expr"]), case.get("history", "fresh"))])[0]
+        print("query:", placement_text(case["placement"], r["src"]), " backend:", r["backend"], " history:", r["history"] + history_text(r["history"]))
+        print("translator:", {k: v for k, v in r["obs"].items() if k not in ("members", "body")})
+        if r["obs"].get("body"):
+            print("per-event method of the judged translation:")
+            print("\n".join("    " + l for l in r["obs"]["body"].splitlines() if l.strip() and not l.strip().startswith(("//", "#"))))
         print("model's text of the call:", canon_model(r["model"]))
         print("placement spec on the translator's output:", r["spec"])
+        print("alive spec on the translator's output:", r["alive"])
+        if r.get("job"):
+            print("compiled per-event method over mock events:", r["job"].get("got"), " rows python numerics give:", r["job"]["expected"], " events (jets pt, eta, phi):", r["job"]["events"])
         why = placement_why(r)
         print("verdict:", why or "holds")
         return 1 if why else 0
@@ -1640,6 +2162,7 @@ THEOREMS = ["FaxVerif.C12." + t for t in [
     "resolver_spec", "replaced_iff", "call_emitted", "includes_of_called", "usable_in_arithmetic", "scoped_faithful", "refused_only_unresolved",
     "package_spec", "package_spec_discriminates", "package_partial", "computes_namesake_partial", "spec_partial", "documented_plain_partial", "documented_scoped_partial", "abs_scope_partial", "documented_never_refused", "documented_clean_scoped", "c12_partial",
     "computes_namesake_counterexample_remquo", "computes_namesake_counterexample_abs_int",
+    "call_alive", "alive_spec_model", "alive_discriminates_late", "alive_discriminates_stale",
 ]]
 RULE = (
     "(a) every row of functions_to_replace as it is at run time (row Spec: namesake, header, declared type = C++ result type, arithmetic type; each row is a non-trivial case); (b) name "
@@ -1655,7 +2178,16 @@ RULE = (
     "method (alone, inside arithmetic, on First()), of a user C++ function (add_cpp_function), as tuple / dict element, index expression, test and arms of a "
     "conditional, argument of another documented function, predicate of Where (then Count / First().method), inner Select, operand of `and` — quick: all functions "
     "on ATLAS and 8 on the CMS backends, thorough: all on all three; judged by PlacementSpec (accepted, some expression of the emitted code means the call, header "
-    "included) and tied to the model by containment of the model's text of the call. Inputs inside the listed defect classes (remquo; abs-of-integers "
+    "included) and tied to the model by containment of the model's text of the call; (f) event level: every documented function on operands whose evaluation emits "
+    "statements and moves the translator's cursor — X.First().m(), X.Select(..).First(), X.Select(..).Sum(), X.Count(), constants — as the whole column (every function "
+    "with every double parameter straight out of a First(): all on ATLAS, 8 on the CMS backends) and, with a random mix of those operand kinds, as column inside "
+    "arithmetic, first / last tuple element, dict element, argument of another function, event filter (Where on the dataset); (g) histories: the same query object "
+    "translated once more (write_cpp_files again by the same executor / by a new executor of the same backend / apply_ast_transformations + write_cpp_files again on the same "
+    "AST object / a second AST object parsed from the same text after the first was translated), the LAST translation is judged — every function as row value (history rotating), plus random (function, position, history, backend). (e)-(g) are judged by "
+    "PlacementSpec, by AliveSpec (the line of the per-event method that holds the call mentions only generated variables declared in an enclosing block of THIS method or as "
+    "data members) and, for the positions whose rows are predictable (row value, inside arithmetic, inner Select, all event-level positions), by compiling the rendered "
+    "per-event method with g++ against a mock event store / collections / tree, running it over mock events (two jets: a sample point of the function's domain and a fixed "
+    "second jet) and comparing every filled row with python numerics. Inputs inside the listed defect classes (remquo; abs-of-integers "
     "under a division) are produced only by the findings stream; the repaired ones (round, ilogb/2, the rounding rows, sin(x)*2) are replayed on every run. A case is non-trivial when it is a documented expression containing at least one "
     "function call; distinct = distinct (backend, expression)."
 )
@@ -1669,6 +2201,11 @@ TRUSTED_BASE = [
     "MathFn / meaningPy / meaningCpp / MathFn.params / cppRet: my reading of ISO C++ <cmath> (which name is which function, which header, signatures, result types); "
     "checked against g++ 12 + glibc by compiling every emitted expression with exactly the includes the translator added and comparing values",
     "parseCpp (Lean) reads the emitted text back; parse(render t) = t is tested on every model output, not proved",
+    "the cut of the rendered per-event method into lines (method_lines: braces on lines of their own, `for (auto &&v : …)` headers, declarations `T name;|=|(`; a generated "
+    "variable is an unqualified identifier ending in digits that is not a member access) and the reading of the class declaration for the data members; the mock event "
+    "model of the compiled-job oracle (JOB_MOCK: event store, collections of pointers / values, handles, tokens, tree) and the extraction of the method body by brace matching",
+    "ArgShape / columnCode (Lean): a hand model of the block structure visit_function_ast's arguments leave behind, up to the position of declarations inside a block; "
+    "tied to the code by AliveSpec evaluated on the rendered method",
     "numerical agreement of libm with python's math module (tolerance 1e-9 relative) and the C definitions used where python has no such function "
     "(round half away from zero, rint/nearbyint half to even, ilogb, scalbn, fdim, fma by exact rational arithmetic)",
     "func_adl / qastle are bypassed: the query AST is built with ast.parse in the form qastle delivers; the mock loop variable (struct Obj) stands for the EDM object",
@@ -1685,13 +2222,18 @@ LEVEL_TEXT = (
     "is resolved (through python's eval rule) to a namesake row. For every table, environment and expression of unbounded size: the resolution rule, call "
     "emission, inclusion of the headers of every called function, success and arithmetic type of every accepted expression, the exact cause of each refusal; and for "
     "every expression in the stated scope the emitted C++ term denotes, under the C++ typing rules, the same value as the query under python numerics with every function "
-    "read by its documented name; and at package level, for any inject_code include lists, every rendered C++ file of the model's package that calls a math function sees <cmath>. Two counterexample theorems (remquo, abs(int)/2) mark where the full statement is false of the code."
+    "read by its documented name; and at package level, for any inject_code include lists, every rendered C++ file of the model's package that calls a math function sees <cmath>; and for every list of "
+    "arguments that are constants, values out of a First() or accumulators of Count()/Sum(), the code the model emits for a column whose value is the call keeps every line inside the "
+    "blocks that declare the variables it mentions (call_alive), so AliveSpec holds of it; two literals show the clause rejects a call emitted after its First() loop was closed and a "
+    "call that names the loop variable of another translation. Two counterexample theorems (remquo, abs(int)/2) mark where the full statement is false of the code."
 )
 LEVEL_NOTE = (
     "Theorem: table facts (all rows), resolver/emission facts (all expressions), namesake semantics for expressions with int/double operands, + - * / **, unary + -, and "
     "every documented function except remquo and abs-of-integers (defect exclusions, each with a counterexample theorem and a listed finding). Sampled only: "
     "the positions other than value / arithmetic operand / argument of another math function (method and user-function arguments, tuple, dict, index, conditional, Where, "
-    "inner Select: the model has no such constructs, the Lean Spec is evaluated on the implementation's output there), the package rendering beyond its include lists, "
+    "inner Select: the model has no such constructs, the Lean Spec is evaluated on the implementation's output there), the event-level positions and the re-translation histories "
+    "(PlacementSpec + AliveSpec on the implementation's output and the compiled per-event method over mock events; the model of the block structure is proved to satisfy AliveSpec "
+    "but is not compared line by line with the rendered method), the package rendering beyond its include lists, "
     "float-typed operands, % and not (accepted, judged by the Spec on the implementation), and the numeric values (libm is trusted). The hand model's agreement with the "
     "python is checked by differential execution on three backends, not proved. Trusted: Lean kernel (axioms audited), translator, harness, my reading of <cmath>."
 )
